@@ -1915,6 +1915,7 @@ int xmp_start_player(xmp_context opaque, int rate, int format)
 	p->smix_vol = 100;
 	p->gvol = m->volbase;
 	p->pos = p->ord = 0;
+	p->reposition = 0;
 	p->frame = -1;
 	p->row = 0;
 	p->current_time = 0;
@@ -2044,8 +2045,10 @@ int xmp_play_frame(xmp_context opaque)
 	}
 
 	/* check reposition */
-	if (p->ord != p->pos) {
+	if (p->ord != p->pos || p->reposition) {
 		int start = m->seq_data[p->sequence].entry_point;
+
+		p->reposition = 0;
 
 		if (p->pos == -2) {		/* set by xmp_module_stop */
 			return -XMP_END;	/* that's all folks */
